@@ -119,4 +119,47 @@ service Root { void root() }
 `,
 		},
 	},
+	{
+		// a base name with a dot inside: the prefix is everything before the LAST dot
+		// (utils.ParseAlias; a mutant that split at the first dot escaped before this program)
+		name: "dotted-include-name",
+		main: "main.thrift",
+		files: map[string]string{
+			"main.thrift": `include "sub/dotted.name.thrift"
+namespace go c15.corpus.dotted.main
+struct Holder {
+  1: dotted.name.Thing a
+  2: list<dotted.name.Kind> b
+}
+service S extends dotted.name.Base {}
+`,
+			"sub/dotted.name.thrift": `namespace go c15.corpus.dotted.sub
+struct Thing { 1: i32 v }
+enum Kind { A, B }
+service Base { void ping() }
+`,
+		},
+	},
+	{
+		// an included file that is not called *.thrift: the IDL prefix is the base name without its
+		// extension (semantic.IDLPrefix); the descriptor used to cut ".thrift" only (repaired)
+		name: "include-other-extension",
+		main: "main.thrift",
+		files: map[string]string{
+			"main.thrift": `include "other.idl"
+include "noext"
+namespace go c15.corpus.ext.main
+struct Holder {
+  1: other.Gadget a
+  2: noext.Plain b
+}
+`,
+			"other.idl": `namespace go c15.corpus.ext.other
+struct Gadget { 1: i32 v }
+`,
+			"noext": `namespace go c15.corpus.ext.noext
+struct Plain { 1: i32 v }
+`,
+		},
+	},
 }
